@@ -27,27 +27,38 @@ void _dbus_real_assert (dbus_bool_t condition, const char *condition_text, const
 { __CPROVER_assert (condition, "dbus assertion"); __CPROVER_assume (condition); }
 void _dbus_real_assert_not_reached (const char *explanation, const char *file, int line) { __CPROVER_assert (0, "dbus assert_not_reached"); __CPROVER_assume (0); }
 void _dbus_verbose_real (const char *file, const int line, const char *function, const char *format, ...) {}
-#define NR 3
+#ifndef C07_NR
+#define C07_NR 3
+#endif
+#define NR 3           /* rule objects; C07_NR (<= 3) is how many of them may be stored */
 #define NC 3
 /* ---- connections: opaque DBusConnection handles with their real BusConnectionData ---- */
-static char conn_obj[NC]; static BusConnectionData cdata[NC]; static BusConnections conns;
-#define CONN(k) ((DBusConnection *) &conn_obj[k])
+static char conn_o0, conn_o1, conn_o2; static BusConnectionData cdata_o0, cdata_o1, cdata_o2; static BusConnections conns;
+static char *const connp[3] = { &conn_o0, &conn_o1, &conn_o2 }; static BusConnectionData *const cdatap[3] = { &cdata_o0, &cdata_o1, &cdata_o2 };
+#define CONN(k) ((DBusConnection *) connp[k])
+#define cdata(k) (*cdatap[k])
 void *verif_stub_connection_get_data (DBusConnection *c, dbus_int32_t slot)
-{ PRE (__CPROVER_same_object (c, conn_obj), "dbus_connection_get_data: a connection of the bus"); return &cdata[(char *) c - conn_obj]; }
+{ PRE (c == CONN (0) || c == CONN (1) || c == CONN (2), "dbus_connection_get_data: a connection of the bus"); return c == CONN (0) ? &cdata_o0 : c == CONN (1) ? &cdata_o1 : &cdata_o2; }
 /* ---- list links from a static pool (dbus-list.c's alloc_link / free_link: mempool + lock) ---- */
-static DBusList link_pool[8]; static int link_used; static int g_links_freed;
-DBusList *verif_alloc_link (void *data) { if (nondet_bool () || link_used >= 8) return NULL; DBusList *l = &link_pool[link_used++]; l->data = data; l->prev = l->next = NULL; return l; }
+static DBusList lk0, lk1, lk2, lk3; static int link_used; static int g_links_freed;
+DBusList *verif_alloc_link (void *data) { if (nondet_bool () || link_used >= 4) return NULL; DBusList *l = link_used == 0 ? &lk0 : link_used == 1 ? &lk1 : link_used == 2 ? &lk2 : &lk3; link_used++; l->data = data; l->prev = l->next = NULL; return l; }
 void verif_free_link (DBusList *l) { g_links_freed++; }
 /* index of a stored rule (by comparison: pointer subtraction would put 64-bit dividers into the formula) */
-#define RIDX(rule) ((rule) == &rules[0] ? 0 : (rule) == &rules[1] ? 1 : 2)
+#define RIDX(rule) ((rule) == &rule_o0 ? 0 : (rule) == &rule_o1 ? 1 : 2)
 /* match_rule_to_string: only feeds _dbus_verbose (logging, dropped); may return NULL ("nomem") */
 char *verif_stub_to_string (BusMatchRule *rule) { return NULL; }
 /* ---- rules ---- */
-static BusMatchRule rules[NR]; static DBusList rnode[NR]; static _Bool g_match[NR]; static int g_match_calls[NR];
+/* separate objects, not arrays of structs: a pointer into an array of structs makes every dereference a byte extraction at a symbolic offset */
+static BusMatchRule rule_o0, rule_o1, rule_o2; static DBusList rnode_o0, rnode_o1, rnode_o2;
+static BusMatchRule *const rulep[3] = { &rule_o0, &rule_o1, &rule_o2 }; static DBusList *const rnodep[3] = { &rnode_o0, &rnode_o1, &rnode_o2 };
+#define rules(k) (*rulep[k])
+#define rnode(k) (*rnodep[k])
+#define IS_RULE(r) ((r) == &rule_o0 || (r) == &rule_o1 || (r) == &rule_o2)
+static _Bool g_match[NR]; static int g_match_calls[NR];
 static DBusMessage *g_msg; static DBusConnection *g_sender, *g_addressed;
 dbus_bool_t verif_stub_match_rule_matches (BusMatchRule *rule, DBusConnection *sender, DBusConnection *addressed, DBusMessage *message, BusMatchFlags already_matched)
 {
-  PRE (__CPROVER_same_object (rule, rules), "match_rule_matches: a rule of the matchmaker");
+  PRE (IS_RULE (rule), "match_rule_matches: a rule of the matchmaker");
   PRE (sender == g_sender && addressed == g_addressed && message == g_msg, "match_rule_matches: asked about this sender / addressed recipient / message");
   PRE (already_matched == (BUS_MATCH_MESSAGE_TYPE | BUS_MATCH_INTERFACE), "match_rule_matches: type and interface are matched by the choice of list");
   int k = RIDX (rule); g_match_calls[k]++; return g_match[k];
@@ -69,33 +80,34 @@ void *verif_stub_hash_lookup_string (DBusHashTable *table, const char *key)
   PRE (__CPROVER_same_object (table, table_obj) && key == f_iface && key != NULL, "_dbus_hash_table_lookup_string: a pool's table, the message's interface");
   int t = (int) ((char *) table - table_obj); return bucket_exists[t] ? &bucket[t] : NULL;
 }
-void harness (void)
+/* one run for a concrete message type T (the pools are indexed by it; with constants the symbolic execution stays small):
+ * rules sit in pool 0 (no type key), pool T (type key equal to the message's) or pool OTHER (a type the message does not have) */
+static void run (const int T, const int OTHER)
 {
   BusMatchmaker mm; static char mo; g_msg = (DBusMessage *) &mo;
-  f_type = nondet_int (); __CPROVER_assume (f_type >= 0 && f_type <= DBUS_NUM_MESSAGE_TYPES);   /* incl. INVALID (0) and an unknown type */
+  f_type = T;
   f_iface = nondet_bool () ? iface_name : NULL;
   for (int t = 0; t < DBUS_NUM_MESSAGE_TYPES; t++) { mm.rules_by_type[t].rules_by_iface = (DBusHashTable *) &table_obj[t]; mm.rules_by_type[t].rules_without_iface = NULL; bucket[t] = NULL; bucket_exists[t] = nondet_bool (); }
   mm.refcount = 1;
   conns.stamp = nondet_int (); __CPROVER_assume (conns.stamp < 0x7fffffff);
-  for (int k = 0; k < NC; k++) { cdata[k].connections = &conns; cdata[k].stamp = nondet_int (); __CPROVER_assume (cdata[k].stamp <= conns.stamp); }   /* stamps come from earlier rounds */
+  for (int k = 0; k < NC; k++) { cdata (k).connections = &conns; cdata (k).stamp = nondet_int (); __CPROVER_assume (cdata (k).stamp <= conns.stamp); }   /* stamps come from earlier rounds */
   int ci = nondet_int (); __CPROVER_assume (ci >= -1 && ci < NC); g_sender = ci < 0 ? NULL : CONN (ci);
   int ai = nondet_int (); __CPROVER_assume (ai >= -1 && ai < NC); g_addressed = ai < 0 ? NULL : CONN (ai);
-  int nr = nondet_int (); __CPROVER_assume (nr >= 0 && nr <= NR);
-  int owner[NR];
-  for (int r = 0; r < NR; r++)
+  int nr = nondet_int (); __CPROVER_assume (nr >= 0 && nr <= C07_NR);
+  int owner[3]; int pool[3]; _Bool by_iface[3];
+  for (int r = 0; r < 3; r++)
     {
       g_match[r] = nondet_bool (); g_match_calls[r] = 0; owner[r] = nondet_int (); __CPROVER_assume (owner[r] >= 0 && owner[r] < NC);
-      rules[r].refcount = 1; rules[r].matches_go_to = CONN (owner[r]); rules[r].flags = 0; rnode[r].data = &rules[r];
+      rules (r).refcount = 1; rules (r).matches_go_to = CONN (owner[r]); rules (r).flags = 0; rnode (r).data = &rules (r);
+      int w = nondet_int (); __CPROVER_assume (w >= 0 && w <= 2); pool[r] = w == 0 ? 0 : w == 1 ? ((T > 0 && T < DBUS_NUM_MESSAGE_TYPES) ? T : OTHER) : OTHER; by_iface[r] = nondet_bool ();
       if (r < nr)
         {
-          /* which of the four lists the rule sits in is decided by its own type / interface keys; a rule in a list the message
-           * does not select is simply not asked (it is put in an unselected pool) */
-          int t = nondet_int (); __CPROVER_assume (t >= 0 && t < DBUS_NUM_MESSAGE_TYPES); _Bool by_iface = nondet_bool ();
-          if (by_iface) { __CPROVER_assume (bucket_exists[t]); list_add (&bucket[t], &rnode[r]); } else list_add (&mm.rules_by_type[t].rules_without_iface, &rnode[r]);
-          rules[r].message_type = t;
+          if (pool[r] == 0) { if (by_iface[r]) { __CPROVER_assume (bucket_exists[0]); list_add (&bucket[0], &rnode (r)); } else list_add (&mm.rules_by_type[0].rules_without_iface, &rnode (r)); }
+          else if (pool[r] == OTHER) { if (by_iface[r]) { __CPROVER_assume (bucket_exists[OTHER]); list_add (&bucket[OTHER], &rnode (r)); } else list_add (&mm.rules_by_type[OTHER].rules_without_iface, &rnode (r)); }
+          else { if (by_iface[r]) { __CPROVER_assume (bucket_exists[T]); list_add (&bucket[T], &rnode (r)); } else list_add (&mm.rules_by_type[T].rules_without_iface, &rnode (r)); }
+          rules (r).message_type = pool[r];
         }
     }
-  /* a bucket that exists is never empty (bus_matchmaker_gc_rules) -- not needed by get_recipients, not assumed */
   DBusList *recipients = NULL; link_used = 0;
   dbus_bool_t ok = bus_matchmaker_get_recipients (&mm, &conns, g_sender, g_addressed, g_msg, &recipients);
   __CPROVER_assert (ok == 0 || ok == 1, "post0 boolean");
@@ -103,14 +115,14 @@ void harness (void)
   if (ok && verif_gk >= 0 && verif_gk < NC)
     {
       /* specification: "delivered to a connection exactly once if at least one match rule that connection currently holds matches
-       * it, and not at all otherwise"; the addressed recipient gets the message anyway and must not be listed a second time */
+       * it, and not at all otherwise"; the addressed recipient gets the message anyway and must not be listed a second time.
+       * A rule is consulted iff its type key (pool) is absent or equals the message's type, and its interface key (bucket) is
+       * absent or equals the message's interface. */
       _Bool wants = 0;
       for (int r = 0; r < NR; r++) if (r < nr && owner[r] == verif_gk && g_match[r])
         {
-          int t = rules[r].message_type; _Bool selected = (t == DBUS_MESSAGE_TYPE_INVALID || (t == f_type && f_type < DBUS_NUM_MESSAGE_TYPES));
-          /* a rule stored under an interface bucket is selected only if the message has that interface */
-          DBusList *l = bucket[t]; _Bool in_bucket = 0; int g = 0; if (l) do { if (l == &rnode[r]) in_bucket = 1; l = l->next; g++; } while (l != bucket[t] && g < 5);
-          if (selected && (!in_bucket || f_iface != NULL)) wants = 1;
+          _Bool selected = (pool[r] == 0 || (pool[r] == T && T > 0 && T < DBUS_NUM_MESSAGE_TYPES));
+          if (selected && (!by_iface[r] || f_iface != NULL)) wants = 1;
         }
       int cnt = list_count (recipients, CONN (verif_gk));
       __CPROVER_assert (cnt <= 1, "post1 no connection is listed twice");
@@ -120,14 +132,21 @@ void harness (void)
   if (ok) __CPROVER_assert (list_len (recipients) <= NC, "post4 at most one entry per connection");
   if (!ok) __CPROVER_assert (recipients == NULL, "post5 OOM => FALSE and an empty recipient list");
   if (ok && list_len (recipients) == 2) REACH ("two-recipients"); if (!ok) REACH ("oom");
-  if (ok && nr == 3 && owner[0] == owner[1] && g_match[0] && g_match[1] && list_len (recipients) == 1) REACH ("dedupe");
+  if (ok && nr >= 2 && owner[0] == owner[1] && g_match[0] && g_match[1] && list_len (recipients) == 1) REACH ("dedupe");
   if (ok && g_addressed && list_len (recipients) >= 1) REACH ("eavesdropper-besides-addressed");
+}
+void harness (void)
+{
+  int sel = nondet_int ();
+  if (sel == 0) run (DBUS_MESSAGE_TYPE_INVALID, 1);                 /* a message without a valid type: only the type-less pool is consulted */
+  else if (sel == 1) run (DBUS_MESSAGE_TYPE_SIGNAL, 2);             /* a signal (stands for the four valid types) */
+  else run (DBUS_NUM_MESSAGE_TYPES, 3);                             /* an unknown type code */
 }
 #elif VERIF_PART == 2
 static int g_conn_removed[NR]; static int g_unrefs[NR];
 void verif_stub_connection_remove_match_rule (DBusConnection *c, BusMatchRule *rule)
-{ PRE (__CPROVER_same_object (rule, rules) && c == rule->matches_go_to, "bus_connection_remove_match_rule: the rule's owner"); g_conn_removed[RIDX (rule)]++; }
-void verif_stub_rule_unref (BusMatchRule *rule) { PRE (__CPROVER_same_object (rule, rules), "bus_match_rule_unref: a stored rule"); g_unrefs[RIDX (rule)]++; }
+{ PRE (IS_RULE (rule) && c == rule->matches_go_to, "bus_connection_remove_match_rule: the rule's owner"); g_conn_removed[RIDX (rule)]++; }
+void verif_stub_rule_unref (BusMatchRule *rule) { PRE (IS_RULE (rule), "bus_match_rule_unref: a stored rule"); g_unrefs[RIDX (rule)]++; }
 static const char *g_err_name;
 void verif_stub_set_error (DBusError *e, const char *name, const char *format, ...) { PRE (name != NULL, "dbus_set_error"); g_err_name = name; if (e) { e->name = name; e->message = format; } }
 void harness (void)
@@ -137,17 +156,17 @@ void harness (void)
    * unequal rules, and equal rules of another owner, all occur */
   BusMatchmaker mm; BusMatchRule value; DBusError err; err.name = NULL; err.message = NULL; static char mx[] = "x", my[] = "y", vx[] = "x", vy[] = "y";
   for (int t = 0; t < DBUS_NUM_MESSAGE_TYPES; t++) { mm.rules_by_type[t].rules_by_iface = NULL; mm.rules_by_type[t].rules_without_iface = NULL; }
-  int nr = nondet_int (); __CPROVER_assume (nr >= 0 && nr <= NR);
+  int nr = nondet_int (); __CPROVER_assume (nr >= 0 && nr <= C07_NR);
   _Bool shape[NR]; int owner[NR];
   for (int r = 0; r < NR; r++)
     {
       shape[r] = nondet_bool (); owner[r] = nondet_bool () ? 1 : 0; g_conn_removed[r] = 0; g_unrefs[r] = 0;
-      rules[r].refcount = 1; rules[r].matches_go_to = CONN (owner[r]); rules[r].flags = BUS_MATCH_MEMBER; rules[r].message_type = 0; rules[r].interface = NULL;
-      rules[r].member = shape[r] ? mx : my; rules[r].sender = rules[r].destination = rules[r].path = NULL; rules[r].args = NULL; rules[r].arg_lens = NULL; rules[r].args_len = 0;
-      rnode[r].data = &rules[r]; if (r < nr) list_add (&mm.rules_by_type[0].rules_without_iface, &rnode[r]);
+      rules (r).refcount = 1; rules (r).matches_go_to = CONN (owner[r]); rules (r).flags = BUS_MATCH_MEMBER; rules (r).message_type = 0; rules (r).interface = NULL;
+      rules (r).member = shape[r] ? mx : my; rules (r).sender = rules (r).destination = rules (r).path = NULL; rules (r).args = NULL; rules (r).arg_lens = NULL; rules (r).args_len = 0;
+      rnode (r).data = &rules (r); if (r < nr) list_add (&mm.rules_by_type[0].rules_without_iface, &rnode (r));
     }
   _Bool vshape = nondet_bool (); int vowner = nondet_bool () ? 1 : 0;
-  value = rules[0]; value.matches_go_to = CONN (vowner); value.member = vshape ? vx : vy;      /* an equal rule is equal by value, not by pointer */
+  value = rules (0); value.matches_go_to = CONN (vowner); value.member = vshape ? vx : vy;      /* an equal rule is equal by value, not by pointer */
   g_err_name = NULL; g_links_freed = 0;
   dbus_bool_t ok = bus_matchmaker_remove_rule_by_value (&mm, &value, &err);
   /* specification: "RemoveMatch removes one rule equal to its argument or fails with MatchRuleNotFound" */
@@ -157,7 +176,7 @@ void harness (void)
   __CPROVER_assert (IMP (ok, list_len (mm.rules_by_type[0].rules_without_iface) == nr - 1 && g_links_freed == 1), "post3 TRUE => exactly one rule removed");
   verif_gk = nondet_int ();
   if (ok && verif_gk >= 0 && verif_gk < nr)
-    __CPROVER_assert (list_count (mm.rules_by_type[0].rules_without_iface, &rules[verif_gk]) == (verif_gk == last_equal ? 0 : 1) &&
+    __CPROVER_assert (list_count (mm.rules_by_type[0].rules_without_iface, &rules (verif_gk)) == (verif_gk == last_equal ? 0 : 1) &&
                       g_conn_removed[verif_gk] == (verif_gk == last_equal) && g_unrefs[verif_gk] == (verif_gk == last_equal),
                       "post4 TRUE => the removed rule is the most recently added equal one: it leaves the list and its owner's list and is released once; every other rule stays");
   if (ok) REACH ("removed"); else REACH ("not-found"); if (ok && nr == 3 && shape[0] == shape[2] && owner[0] == owner[2] && last_equal == 2) REACH ("two-equal-rules-one-removed");
@@ -165,21 +184,21 @@ void harness (void)
 #else
 static int g_conn_removed[NR]; static int g_unrefs[NR]; static const char name0[] = ":1.0";
 void verif_stub_connection_remove_match_rule (DBusConnection *c, BusMatchRule *rule)
-{ PRE (__CPROVER_same_object (rule, rules) && c == rule->matches_go_to, "bus_connection_remove_match_rule: the rule's owner"); g_conn_removed[RIDX (rule)]++; }
-void verif_stub_rule_unref (BusMatchRule *rule) { PRE (__CPROVER_same_object (rule, rules), "bus_match_rule_unref: a stored rule"); g_unrefs[RIDX (rule)]++; }
+{ PRE (IS_RULE (rule) && c == rule->matches_go_to, "bus_connection_remove_match_rule: the rule's owner"); g_conn_removed[RIDX (rule)]++; }
+void verif_stub_rule_unref (BusMatchRule *rule) { PRE (IS_RULE (rule), "bus_match_rule_unref: a stored rule"); g_unrefs[RIDX (rule)]++; }
 const char *verif_stub_connection_get_name (DBusConnection *c) { PRE (c == CONN (0), "bus_connection_get_name: the disconnecting connection"); return name0; }
 void harness (void)
 {
   /* rule_list_remove_by_connection on one list of up to 3 rules; connection 0 (unique name :1.0) disconnects.
    * A rule is owned by connection 0 or 1 and may name a unique sender: ":1.0" (the one going away) or ":1.7". */
   DBusList *list = NULL; static char s10[] = ":1.0", s17[] = ":1.7", sw[] = "a.b";
-  int nr = nondet_int (); __CPROVER_assume (nr >= 0 && nr <= NR); int owner[NR]; int snd[NR];
+  int nr = nondet_int (); __CPROVER_assume (nr >= 0 && nr <= C07_NR); int owner[NR]; int snd[NR];
   for (int r = 0; r < NR; r++)
     {
       owner[r] = nondet_bool () ? 1 : 0; snd[r] = nondet_int (); __CPROVER_assume (snd[r] >= 0 && snd[r] <= 3); g_conn_removed[r] = 0; g_unrefs[r] = 0;
-      rules[r].refcount = 1; rules[r].matches_go_to = CONN (owner[r]); rules[r].flags = snd[r] ? BUS_MATCH_SENDER : 0; rules[r].sender = snd[r] == 1 ? s10 : snd[r] == 2 ? s17 : snd[r] == 3 ? sw : NULL;
-      rules[r].destination = NULL; rules[r].member = rules[r].interface = rules[r].path = NULL; rules[r].args = NULL; rules[r].args_len = 0;
-      rnode[r].data = &rules[r]; if (r < nr) list_add (&list, &rnode[r]);
+      rules (r).refcount = 1; rules (r).matches_go_to = CONN (owner[r]); rules (r).flags = snd[r] ? BUS_MATCH_SENDER : 0; rules (r).sender = snd[r] == 1 ? s10 : snd[r] == 2 ? s17 : snd[r] == 3 ? sw : NULL;
+      rules (r).destination = NULL; rules (r).member = rules (r).interface = rules (r).path = NULL; rules (r).args = NULL; rules (r).args_len = 0;
+      rnode (r).data = &rules (r); if (r < nr) list_add (&list, &rnode (r));
     }
   g_links_freed = 0;
   rule_list_remove_by_connection (&list, CONN (0));
@@ -189,7 +208,7 @@ void harness (void)
   if (verif_gk >= 0 && verif_gk < nr)
     {
       _Bool gone = owner[verif_gk] == 0 || snd[verif_gk] == 1;
-      __CPROVER_assert (list_count (list, &rules[verif_gk]) == (gone ? 0 : 1), "post1 a rule is removed iff the disconnecting connection owns it or it names that connection's unique name as sender; the others stay");
+      __CPROVER_assert (list_count (list, &rules (verif_gk)) == (gone ? 0 : 1), "post1 a rule is removed iff the disconnecting connection owns it or it names that connection's unique name as sender; the others stay");
       __CPROVER_assert (g_conn_removed[verif_gk] == gone && g_unrefs[verif_gk] == gone, "post2 a removed rule leaves its owner's list and is released exactly once");
     }
   int keep = 0; for (int r = 0; r < NR; r++) if (r < nr && !(owner[r] == 0 || snd[r] == 1)) keep++;
